@@ -117,7 +117,7 @@ def run(chk, tier):
         runs = list(ex.map(do, enumerate(cases)))
     t_runs = time.time() - t0
     allruns = refruns + runs
-    verdicts, stats = dt.validate(allruns, chunk=48 if tier == "quick" else 64, parallel=8)
+    verdicts, stats = dt.validate(allruns, chunk=48 if tier == "quick" else 64, parallel=8, timeout=300 if tier == "quick" else 900)
     # a rejection counts only if it repeats (guards against flakiness of the harness itself)
     again = [(i, r) for i, (r, v) in enumerate(zip(allruns, verdicts)) if not v.ok]
     if again:
@@ -127,7 +127,7 @@ def run(chk, tier):
             return cf.execute(b, r.case, root, 3000000 + i, ref.contents if ref else None, hooks, tracedir)
         with ThreadPoolExecutor(max_workers=max(4, vlib.NCPU - 4)) as ex:
             reruns = list(ex.map(redo, again))
-        v2, st2 = dt.validate(reruns, chunk=48 if tier == "quick" else 64, parallel=8)
+        v2, st2 = dt.validate(reruns, chunk=48 if tier == "quick" else 64, parallel=8, timeout=300 if tier == "quick" else 900)
         for k in stats:
             stats[k] += st2[k]
         flaky = 0
